@@ -20,8 +20,12 @@ Decs == CborDecoders \cup JsonDecoders \cup RawDecoders
 
 Generic == {"valid", "truncate", "extend", "bitflip", "byteset", "empty", "random", "repeat"}
 Declared == {"plus1", "2^16", "2^31", "2^32", "2^40", "2^63", "max"}      \* rewritten length fields
+\* a byte-string / list member re-encoded as an array declaring far more elements than follow, with enough
+\* well-formed elements present to run past any cap a decoder puts on its initial capacity
+BigSeq == { p \o ":" \o d : p \in {"1025", "4097", "65537"}, d \in {"2^28", "2^32", "2^40", "max"} }
 Cases ==
     [dec : Decs, mut : Generic, arg : {"none"}] \cup
+    [dec : CborDecoders, mut : {"bigseq"}, arg : BigSeq] \cup
     [dec : CborDecoders \cup {"authdata"}, mut : {"lenfield"}, arg : Declared] \cup
     [dec : CborDecoders \cup JsonDecoders \cup {"authdata"}, mut : {"deepnest"}, arg : {"64", "512", "100000"}] \cup
     [dec : {"u2fRequest", "u2fAuth", "hid", "authdata"}, mut : {"lenfield"}, arg : {"plus1", "minus1", "zero", "max"}] \cup
@@ -32,8 +36,9 @@ Cases ==
 MemBound(len) == 4194304 + 256 * len
 Judge(e) ==
     /\ e.outcome \in {"value", "error"}
-    /\ e.maxalloc <= MemBound(e.len)
-    /\ e.peak <= 4 * MemBound(e.len)
+    \* (written with divisions: TLC integers are 32-bit)
+    /\ e.maxalloc \div 256 <= 16384 + e.len              \* maxalloc <= MemBound(len)
+    /\ e.peak \div 1024 <= 16384 + e.len                 \* peak <= 4 * MemBound(len)
     /\ (e.len <= 200000 => e.cpums <= 2000)
 
 Rec == IF "TRACE" \in DOMAIN IOEnv THEN ndJsonDeserialize(IOEnv.TRACE) ELSE <<>>
